@@ -170,6 +170,29 @@ class EdgeQLSourceGenerator(codegen.SourceGenerator):
         else:
             self.write(' ')
 
+    def _write_body_text(self, text: str) -> None:
+        """Write the verbatim text of a nested DDL block.
+
+        Every line is indented exactly once (write() indents the first
+        line by itself), so that the parser's dedent recovers the same
+        text and printing is stable.
+        """
+        self.write(' {')
+        if self.pretty:
+            self.indentation += 1
+            self.new_lines = 1
+            for line in text.split('\n'):
+                if line.strip():
+                    self.write(line)
+                    self.new_lines = 1
+                else:
+                    self.new_lines += 1
+            self.indentation -= 1
+            self.new_lines = 1
+        else:
+            self.write(' ', text, ' ')
+        self.write('}')
+
     def _visit_aliases(self, node: qlast.Statement) -> None:
         if node.aliases:
             self._write_keywords('WITH')
@@ -1195,11 +1218,7 @@ class EdgeQLSourceGenerator(codegen.SourceGenerator):
         self._write_keywords(' VERSION ')
         self.visit(node.version)
         if node.body.text:
-            self.write(' {')
-            self._block_ws(1)
-            self.write(self.indent_text(node.body.text))
-            self._block_ws(-1)
-            self.write('}')
+            self._write_body_text(node.body.text)
         elif node.body.commands:
             self._ddl_visit_body(node.body.commands)
 
@@ -1227,11 +1246,7 @@ class EdgeQLSourceGenerator(codegen.SourceGenerator):
         self.visit(node.to_version)
 
         if node.body.text:
-            self.write(' {')
-            self._block_ws(1)
-            self.write(self.indent_text(node.body.text))
-            self._block_ws(-1)
-            self.write('}')
+            self._write_body_text(node.body.text)
         elif node.body.commands:
             self._ddl_visit_body(node.body.commands)
 
@@ -1308,11 +1323,7 @@ class EdgeQLSourceGenerator(codegen.SourceGenerator):
             else:
                 self._write_keywords('initial')
         if node.body.text:
-            self.write(' {')
-            self._block_ws(1)
-            self.write(self.indent_text(node.body.text))
-            self._block_ws(-1)
-            self.write('}')
+            self._write_body_text(node.body.text)
         elif node.commands or node.body.commands:
             commands = [*node.commands, *node.body.commands]
             self._ddl_visit_body(commands)
